@@ -58,6 +58,34 @@ func (e *Effects) reachable(roots ...*ssa.Function) map[*ssa.Function]bool {
 	return seen
 }
 
+// reachableWithGo: like reachable, but goroutines started on the way count as well.
+func (e *Effects) reachableWithGo(roots ...*ssa.Function) map[*ssa.Function]bool {
+	seen := map[*ssa.Function]bool{}
+	var work []*ssa.Function
+	for _, r := range roots {
+		if r != nil && !seen[r] {
+			seen[r] = true
+			work = append(work, r)
+		}
+	}
+	for len(work) > 0 {
+		f := work[len(work)-1]
+		work = work[:len(work)-1]
+		for _, b := range f.Blocks {
+			for _, ins := range b.Instrs {
+				fns, _ := e.calleesOf(f, ins)
+				for _, g := range fns {
+					if !seen[g] {
+						seen[g] = true
+						work = append(work, g)
+					}
+				}
+			}
+		}
+	}
+	return seen
+}
+
 // accesses: direct reads and writes of heap classes by f, with positions.
 type access struct {
 	class string
@@ -241,6 +269,37 @@ func (ck *Checker) disciplineObligations() []*Obligation {
 				}
 			}
 		}
+		// ... nor lets the address of one of those fields leave the expression it is loaded in (a field
+		// handed to a library by address - a buffer, say - is written behind the analysis' back)
+		protected := map[types.Type]bool{}
+		if pt := bcl.Type("Prog"); pt != nil {
+			protected[pt.Type()] = true
+		}
+		if lt := bcl.Type("lineCalc"); lt != nil {
+			protected[lt.Type()] = true
+		}
+		for f := range e.reachable(ex, exAPI) {
+			for _, b := range f.Blocks {
+				for _, ins := range b.Instrs {
+					fa, ok := ins.(*ssa.FieldAddr)
+					if !ok {
+						continue
+					}
+					pt, ok := fa.X.Type().Underlying().(*types.Pointer)
+					if !ok || !protected[pt.Elem()] {
+						continue
+					}
+					fld := pt.Elem().Underlying().(*types.Struct).Field(fa.Field)
+					if fld.Name() == "mu" {
+						continue
+					}
+					if !addrUsedForLoadsOnly(fa, 0) {
+						bad = append(bad, fmt.Sprintf("%s lets the address of %s.%s escape at %s", p.FuncName(f), pt.Elem().String(), fld.Name(), p.Pos(instrPos(fa))))
+					}
+				}
+			}
+		}
+		sort.Strings(bad)
 		out = append(out, effectsObl("discipline/execute-does-not-write-prog", []string{"C12", "C16", "C19", "C04", "C03", "C09"}, len(bad) == 0, "machine.go",
 			"no function reachable from execute writes a field of Prog, a byte/int/value slice element or the line table: a Prog is only read by execution, so concurrent executions of one Prog share read-only memory and execution does not alter it", bad))
 	}
@@ -606,6 +665,13 @@ func (ck *Checker) disciplineObligations() []*Obligation {
 		api = append(api, p.Lookup("(*Prog).Dump"), p.Lookup("(*Prog).Load"), p.Lookup("(*lexer).run"))
 		if pf := bcl.Func("ParseFile"); pf != nil {
 			api = append(api, pf.AnonFuncs...)
+		}
+		// methods of the package's own types can be called by the libraries through an interface
+		// (fmt calls String/Error/Format of any value it prints): every one of them is an entry point
+		for _, f := range p.All {
+			if f != nil && f.Signature != nil && f.Signature.Recv() != nil && p.InVerifiedPkg(f) && f.Blocks != nil && f.Synthetic == "" {
+				api = append(api, f)
+			}
 		}
 		reach := e.reachable(api...)
 		var badRange, badAmbient, badSelect []string
@@ -993,6 +1059,42 @@ func instrBefore(a, b ssa.Instruction) bool {
 
 // globalUseIsLoadOnly: the instruction uses the address of global g only to read from it
 // (directly, or through field/element addresses that are themselves only read), or stores to it.
+// addrUsedForLoadsOnly: the address is only loaded from, or stored to (stores are counted as writes
+// elsewhere), or narrowed to a field / element address used in the same way.
+func addrUsedForLoadsOnly(v ssa.Value, depth int) bool {
+	if depth > 6 {
+		return false
+	}
+	refs := v.Referrers()
+	if refs == nil {
+		return true
+	}
+	for _, r := range *refs {
+		switch r := r.(type) {
+		case *ssa.UnOp:
+			if r.Op.String() != "*" {
+				return false
+			}
+		case *ssa.FieldAddr:
+			if r.X != v || !addrUsedForLoadsOnly(r, depth+1) {
+				return false
+			}
+		case *ssa.IndexAddr:
+			if r.X != v || !addrUsedForLoadsOnly(r, depth+1) {
+				return false
+			}
+		case *ssa.Store:
+			if r.Addr != v {
+				return false
+			}
+		case *ssa.DebugRef:
+		default:
+			return false
+		}
+	}
+	return true
+}
+
 func globalUseIsLoadOnly(ins ssa.Instruction, g *ssa.Global) bool {
 	var addrOK func(v ssa.Value, depth int) bool
 	addrOK = func(v ssa.Value, depth int) bool {
